@@ -27,7 +27,8 @@ Definition gen_clone (it : item) (w : dw) : clone_body :=
 (* ---- Debug ---- *)
 Definition debug_arm (d : data) : dbg_arm :=
   match d_shape d with
-  | ShStruct => mkDbgArm (positions d Debug) (data_any_skip_trait d Debug)
+  | ShStruct => mkDbgArm (positions d Debug)
+                         (data_any_skip_trait d Debug && negb (match d_fields d with [] => true | _ => false end))
   | _ => mkDbgArm (positions d Debug) false
   end.
 
